@@ -13,7 +13,7 @@
 //!   u x            -> 1 | 0                                     (std::str::from_utf8(x).is_ok())
 //!   sp             -> arg::verif::special_chars()
 //!   pqs a          -> <bytes of Path::from(a)> | <Path::from(a).quote()> | <split of that>
-//! C10 commands (w, wj, r, pn, pd, hs): see the comment above `parse_report` below.
+//! C10 commands (w, wj, r, rk, pn, pd, hs): see the comment above `parse_report` below.
 
 use std::ffi::OsString;
 use std::io::{BufRead, Write};
@@ -270,10 +270,55 @@ fn show_groups(gs: &[FileGroup<Path>]) -> String {
     out
 }
 
+/// A `Read` that hands the data out in pieces: chunking of the byte stream (short reads on a pipe, buffer
+/// boundaries) is an implementation dimension the round trip must be invariant under.
+///   k<n>   every read returns at most n bytes
+///   s<off> reads are as large as the caller allows but never cross the offset <off> (one short read there)
+struct ChunkReader {
+    data: Vec<u8>,
+    pos: usize,
+    max: usize,
+    split: Option<usize>,
+}
+
+impl ChunkReader {
+    fn new(data: Vec<u8>, mode: &str) -> ChunkReader {
+        let n: usize = mode[1..].parse().unwrap_or(0);
+        if mode.starts_with('k') {
+            ChunkReader { data, pos: 0, max: n.max(1), split: None }
+        } else {
+            ChunkReader { data, pos: 0, max: usize::MAX, split: Some(n) }
+        }
+    }
+}
+
+impl std::io::Read for ChunkReader {
+    fn read(&mut self, buf: &mut [u8]) -> std::io::Result<usize> {
+        let mut n = buf.len().min(self.max).min(self.data.len() - self.pos);
+        if let Some(off) = self.split {
+            if self.pos < off {
+                n = n.min(off - self.pos);
+            }
+        }
+        buf[..n].copy_from_slice(&self.data[self.pos..self.pos + n]);
+        self.pos += n;
+        Ok(n)
+    }
+}
+
 fn cmd_read(data: Vec<u8>) -> String {
+    cmd_read_from(data, None)
+}
+
+fn cmd_read_from(data: Vec<u8>, mode: Option<&str>) -> String {
     let starts_json = String::from_utf8_lossy(&data[..data.len().min(16 * 1024)]).starts_with('{');
+    let mode = mode.map(|m| m.to_string());
     let r = catch_unwind(AssertUnwindSafe(|| {
-        let mut reader = match open_report(Cursor::new(data)) {
+        let opened = match &mode {
+            None => open_report(Cursor::new(data)),
+            Some(m) => open_report(ChunkReader::new(data, m)),
+        };
+        let mut reader = match opened {
             Ok(r) => r,
             Err(_) => return if starts_json { "json".to_string() } else { "unknown".to_string() },
         };
@@ -336,6 +381,8 @@ fn c10(cmd: &str, f: &[&str]) -> Option<String> {
             }
         },
         "r" if f.len() == 1 => cmd_read(parse_bytes_field(f[0])),
+        // the same through a Read that delivers the bytes in pieces (mode k<n> or s<off>)
+        "rk" if f.len() == 2 => cmd_read_from(parse_bytes_field(f[1]), Some(f[0])),
         // Path::from(bytes).to_path_buf() (normalisation by std::path components)
         "pn" if f.len() == 1 => bytes_field(&path_bytes(&path_of(&parse_bytes_field(f[0])))),
         // Path::from_escaped_string
